@@ -128,6 +128,7 @@ func (c10) Begin(x *Exec) {
 	}
 	x.state = st
 	x.track = true
+	x.w.rawStamp = true
 }
 
 func (c10) AfterOp(x *Exec, task, idx int, op Op, out Outcome) {
